@@ -135,7 +135,7 @@ def run_case(case):
     if case.get("shortcut"):
         # the shortcut prints a banner and the transpiler's message first; the program output must follow unchanged
         ok = eo.endswith(ro)
-        if not ok and case["kind"] == "corpus":
+        if not ok and (case["kind"] == "corpus" or (case["kind"] == "gen" and case["gen"].get("unordered"))):
             ok = pipeline.canon(eo)[-len(pipeline.canon(ro)):] == pipeline.canon(ro)
         if not ok:
             return fail("stdout-differs", "output of `execute --transpile` does not end with the output of `run`")
